@@ -85,6 +85,17 @@ end
 
 instance : DecidableEq Val := Val.decEq
 
+/-- `[f(x) for x in l]` when every `f x` is defined -/
+def optMap {α β : Type} (f : α → Option β) : List α → Option (List β)
+  | [] => some []
+  | a :: l =>
+    match f a with
+    | none => none
+    | some b =>
+      match optMap f l with
+      | none => none
+      | some bs => some (b :: bs)
+
 /-! ### Python `dict` (insertion ordered) -/
 
 abbrev Dict := List (String × Val)
@@ -163,7 +174,7 @@ structure JobRec where
   args : Dict              -- `job.args`
   objective : Val          -- `job.objective`
   status : Status
-  meta : Dict              -- `job.metadata`
+  md : Dict                -- `job.metadata`
   deriving Repr, DecidableEq
 
 /-- `job.set_output(out)` on a job whose metadata so far is `meta0` -/
@@ -172,7 +183,7 @@ def setOutput (id : Nat) (args : Dict) (status : Status) (meta0 : Dict) (out : V
   match standardizeOutput out with
   | .error e => .error e
   | .ok (o, md) => .ok { id := id, args := args, objective := o, status := status,
-                         meta := dupdate meta0 md }
+                         md := dupdate meta0 md }
 
 def isNonFinite : Val → Bool
   | .nonfin _ => true
@@ -189,7 +200,7 @@ def onDoneObjective (o : Val) : Val :=
 def onDone (tGather : Val) (j : JobRec) : JobRec :=
   { j with
     status := if j.status = .running then .done else j.status
-    meta := dset j.meta "timestamp_gather" tGather
+    md := dset j.md "timestamp_gather" tGather
     objective := onDoneObjective j.objective }
 
 /-! ### `_dump_jobs_done_to_csv_as_hpo_format` -/
@@ -200,7 +211,7 @@ inductive Col
   | objectiveI (i : Nat)
   | jobId
   | jobStatus
-  | meta (k : String)
+  | mdata (k : String)
   deriving DecidableEq, Repr
 
 def Col.name : Col → String
@@ -209,7 +220,7 @@ def Col.name : Col → String
   | .objectiveI i => "objective_" ++ toString i
   | .jobId => "job_id"
   | .jobStatus => "job_status"
-  | .meta k => "m:" ++ k
+  | .mdata k => "m:" ++ k
 
 /-- the per-job `result` dict -/
 abbrev RowDict := List (Col × Val)
@@ -262,7 +273,7 @@ def resultOf (numObj : Option Nat) (j : JobRec) : RowDict :=
   j.args.map (fun kv => (Col.param kv.1, kv.2))
     ++ objectiveCells numObj j.objective
     ++ [(Col.jobId, Val.num j.id), (Col.jobStatus, Val.str j.status.name)]
-    ++ (visibleMeta j.meta).map (fun kv => (Col.meta kv.1, kv.2))
+    ++ (visibleMeta j.md).map (fun kv => (Col.mdata kv.1, kv.2))
 
 def notStrAt (r : RowDict) (c : Col) : Bool :=
   match rget r c with
